@@ -127,3 +127,110 @@ def simple_class_repeat(tree):
     if cs is None:
         return None
     return cs, start, end
+
+
+# ------------------------------------------------------------------ ambiguity under repetition (catastrophic backtracking)
+def _first_set(items):
+    """(negated, chars) of the characters an item sequence can start with; None = cannot tell / can be empty"""
+    items = list(items)
+    if not items:
+        return None
+    op, av = items[0]
+    if op is sre_c.LITERAL:
+        return (False, {av})
+    if op is sre_c.NOT_LITERAL:
+        return (True, {av})
+    if op is sre_c.ANY:
+        return (True, set())
+    if op is sre_c.IN:
+        neg = any(o is sre_c.NEGATE for (o, a) in av)
+        chars = set()
+        for (o, a) in av:
+            if o is sre_c.LITERAL:
+                chars.add(a)
+            elif o is sre_c.RANGE:
+                chars |= set(range(a[0], a[1] + 1))
+            elif o is sre_c.CATEGORY:
+                return (True, set())          # \w \d \s ...: treat as "almost anything"
+        return (neg, chars)
+    if op is sre_c.SUBPATTERN:
+        return _first_set(_items(av[3]))
+    if op is sre_c.BRANCH:
+        out = None
+        for alt in av[1]:
+            f = _first_set(_items(alt))
+            if f is None:
+                return None
+            out = f if out is None else _union(out, f)
+        return out
+    if op in (sre_c.MAX_REPEAT, sre_c.MIN_REPEAT):
+        return _first_set(_items(av[2])) if av[0] >= 1 else None
+    return None
+
+
+def _union(a, b):
+    (na, ca), (nb, cb) = a, b
+    if not na and not nb:
+        return (False, ca | cb)
+    if na and nb:
+        return (True, ca & cb)
+    if na:
+        return (True, ca - cb)
+    return (True, cb - ca)
+
+
+def _intersects(a, b):
+    (na, ca), (nb, cb) = a, b
+    if not na and not nb:
+        return bool(ca & cb)
+    if na and nb:
+        return True
+    if na:
+        return bool(cb - ca)
+    return bool(ca - cb)
+
+
+def _width(items):
+    lo = hi = 0
+    for (op, av) in items:
+        if op in (sre_c.LITERAL, sre_c.NOT_LITERAL, sre_c.ANY, sre_c.IN):
+            lo, hi = lo + 1, hi + 1
+        elif op is sre_c.SUBPATTERN:
+            a, b = _width(_items(av[3]))
+            lo, hi = lo + a, hi + b
+        elif op is sre_c.BRANCH:
+            ws = [_width(_items(alt)) for alt in av[1]]
+            lo, hi = lo + min(w[0] for w in ws), hi + max(w[1] for w in ws)
+        elif op in (sre_c.MAX_REPEAT, sre_c.MIN_REPEAT):
+            a, b = _width(_items(av[2]))
+            lo, hi = lo + a * av[0], hi + (b * av[1] if av[1] < 1000 else 10 ** 6)
+        else:
+            pass
+    return lo, hi
+
+
+def ambiguous_repeats(tree):
+    """Repetitions `( A | B )*` (unbounded) whose alternatives can start with the same character but consume different numbers of characters:
+    a run of that character can be split in exponentially many ways, and all of them are tried when the rest of the pattern fails
+    (catastrophic backtracking).  Returns a list of descriptions."""
+    out = []
+    for (op, av) in walk(tree):
+        if op not in (sre_c.MAX_REPEAT, sre_c.MIN_REPEAT) or av[1] < 1000:
+            continue
+        inner = _items(av[2])
+        while len(inner) == 1 and inner[0][0] is sre_c.SUBPATTERN:
+            inner = _items(inner[0][1][3])
+        if len(inner) == 1 and inner[0][0] is sre_c.BRANCH:
+            alts = [_items(a) for a in inner[0][1][1]]
+            for i in range(len(alts)):
+                for j in range(i + 1, len(alts)):
+                    fi, fj = _first_set(alts[i]), _first_set(alts[j])
+                    if fi is None or fj is None or not _intersects(fi, fj):
+                        continue
+                    if _width(alts[i]) != _width(alts[j]) or _width(alts[i])[0] != _width(alts[i])[1]:
+                        out.append(f'alternatives #{i + 1} and #{j + 1} of a repeated group overlap')
+        # nested unbounded repeats: (x+)+
+        for (op2, av2) in inner:
+            if op2 in (sre_c.MAX_REPEAT, sre_c.MIN_REPEAT) and av2[1] >= 1000 and len(inner) == 1:
+                out.append('an unbounded repetition directly inside an unbounded repetition')
+    return out
